@@ -211,6 +211,33 @@ func runItem(w *hx.Worker, sh *shared, it genfam.Item, onlyInput *string) {
 	if onlyInput != nil {
 		ins = []string{*onlyInput}
 	}
+	// several live lexers of ONE generated definition, advanced alternately, must not disturb each other
+	if onlyInput == nil && (it.Family == "stack" || it.Family == "include" || it.Family == "names") {
+		var picks []string
+		for _, in := range ins {
+			if len(in) == it.MaxLen && len(picks) < 12 && len(in) > 0 && (len(picks) == 0 || in[0] != picks[len(picks)-1][0] || len(picks)%2 == 1) {
+				picks = append(picks, in)
+			}
+		}
+		alone := map[string]lexdrive.Run{}
+		for _, in := range picks {
+			alone[in] = lexdrive.Drive(gen, "f.txt", in, 0)
+		}
+		for i := 0; i+1 < len(picks); i++ {
+			a, b := picks[i], picks[i+1]
+			w.Count("evaluations", 1)
+			w.Count("interleaved_pairs", 1)
+			ra, rb := driveAlternately(gen, a, b)
+			if d := sameRun(alone[a], ra); d != "" {
+				w.Violate(hx.Violation{Key: key(it, a) + fmt.Sprintf(" :: interleaved with %q", b), Class: "generated-lexers-interfere", Detail: map[string]any{"what": d}})
+				break
+			}
+			if d := sameRun(alone[b], rb); d != "" {
+				w.Violate(hx.Violation{Key: key(it, b) + fmt.Sprintf(" :: interleaved with %q", a), Class: "generated-lexers-interfere", Detail: map[string]any{"what": d}})
+				break
+			}
+		}
+	}
 	for _, in := range ins {
 		w.Case(func() string { return key(it, in) })
 		w.Count("evaluations", 1)
@@ -250,6 +277,45 @@ func runItem(w *hx.Worker, sh *shared, it genfam.Item, onlyInput *string) {
 			w.Sample(map[string]any{"definition": it.Def.String(), "input": in, "tokens": fmt.Sprintf("%v", pr.toks)})
 		}
 	}
+}
+
+// driveAlternately advances two lexers of one definition in lock step (A.Next, B.Next, ...).
+func driveAlternately(def lexer.Definition, a, b string) (ra, rb lexdrive.Run) {
+	la, _ := def.Lex("f.txt", strings.NewReader(a))
+	lb, _ := def.Lex("f.txt", strings.NewReader(b))
+	doneA, doneB := false, false
+	step := func(lx lexer.Lexer, r *lexdrive.Run, done *bool) {
+		if *done {
+			return
+		}
+		pan, msg := hx.Guard(func() {
+			t, err := lx.Next()
+			if err != nil {
+				r.Err = err
+				*done = true
+				return
+			}
+			if t.EOF() {
+				tt := t
+				r.EOF = &tt
+				*done = true
+				return
+			}
+			r.Toks = append(r.Toks, t)
+			if len(r.Toks) > 64 {
+				*done = true
+			}
+		})
+		if pan {
+			r.Panicked = msg
+			*done = true
+		}
+	}
+	for !doneA || !doneB {
+		step(la, &ra, &doneA)
+		step(lb, &rb, &doneB)
+	}
+	return
 }
 
 // cmpPrefix checks a lexer run against the prediction up to the point the prediction is defined.
